@@ -79,6 +79,10 @@ type c04builder struct {
 	reg   []*ssa.Function
 	in    map[*ssa.Function]bool
 	full  map[*ssa.Function]bool
+	// hands: the full-rebuild functions that do not store the ring field themselves but hand the ring to their caller
+	// as a result (`r.wTargets = weighTargets(r.Targets)`): a call of one of them is a rebuild only where its result
+	// is published in the ring field (c04rebuildCall).
+	hands map[*ssa.Function]bool
 }
 
 // c04freshBase: the address is a field of a value allocated right here (a literal under construction).
@@ -90,16 +94,90 @@ func c04freshBase(addr ssa.Value) bool {
 	return false
 }
 
+// c04isTargetSlice: []*route.Target (or a named type of that shape).
+func c04isTargetSlice(t types.Type) bool {
+	sl, ok := t.Underlying().(*types.Slice)
+	if !ok {
+		return false
+	}
+	_, isPtr := sl.Elem().(*types.Pointer)
+	return isPtr && namedIs(sl.Elem(), "route.Target")
+}
+
+// c04resultCall: v is (one result of) a synchronous static call of a repository function: the call and its callee.
+func c04resultCall(v ssa.Value) (*ssa.Call, *ssa.Function) {
+	if ex, ok := v.(*ssa.Extract); ok {
+		v = ex.Tuple
+	}
+	call, ok := v.(*ssa.Call)
+	if !ok {
+		return nil, nil
+	}
+	sc := call.Call.StaticCallee()
+	if sc == nil || !isRepoFn(sc) {
+		return nil, nil
+	}
+	return call, unwrap(sc)
+}
+
+// c04publishedCalls: the store writes the ring field and every definition reaching the stored value (phis and local
+// variables followed; a parameter of a setter that is only called statically stands for the arguments at its call
+// sites) is the []*Target result of a call of a repository function: those calls. nil otherwise.
+func c04publishedCalls(st *ssa.Store) []*ssa.Call {
+	if !c04isRing(st.Addr) || c04freshBase(st.Addr) {
+		return nil
+	}
+	var out []*ssa.Call
+	var walk func(v ssa.Value, at *ssa.BasicBlock, depth int) bool
+	walk = func(v ssa.Value, at *ssa.BasicBlock, depth int) bool {
+		for _, lf := range c04leavesLocal(v, at) {
+			if call, _ := c04resultCall(lf.v); call != nil && c04isTargetSlice(lf.v.Type()) {
+				out = append(out, call)
+				continue
+			}
+			p, isParam := lf.v.(*ssa.Parameter)
+			if !isParam || depth > 1 {
+				return false
+			}
+			fn, idx := p.Parent(), -1
+			for k, q := range fn.Params {
+				if q == p {
+					idx = k
+				}
+			}
+			sites := c04sites(fn)
+			if idx < 0 || len(sites) == 0 || len(sites) > maxHelperSites || fn.Parent() != nil || !onlyStaticallyCalled(fn) || len(sites) != len(gSites[fn]) {
+				return false
+			}
+			for _, s := range sites {
+				if _, isCall := s.(*ssa.Call); !isCall || idx >= len(s.Common().Args) || !walk(s.Common().Args[idx], s.Block(), depth+1) {
+					return false
+				}
+			}
+		}
+		return true
+	}
+	if !walk(st.Val, st.Block(), 0) {
+		return nil
+	}
+	return out
+}
+
 // c04ringBuilder resolves the function that rebuilds the weighted ring by its role. The functions that assign the
 // effective weights (stores to Target.Weight) and publish the ring (stores to Route.wTargets) are the parts of the
 // builder; a function of package route whose region contains all of these parts and changes none of the builder's
 // inputs (Route.Targets, Target.FixedWeight) performs a full rebuild. The entry is the innermost such function;
 // wrappers around it are full rebuilds too. Mutators of a route and their callers are excluded by the inputs they
 // change, helpers split off the builder by the parts they lack.
+//
+// The builder may also be a function of its inputs that RETURNS the ring (`r.wTargets = weighTargets(r.Targets)`):
+// a store to the ring field outside the region of a candidate does not disqualify the candidate when all it stores
+// is the result of a call of a candidate; the candidate then performs the full rebuild together with the store that
+// publishes its result (b.hands).
 func c04ringBuilder(c *Ctx) *c04builder {
 	c04resolveRingField(c)
-	parts := map[*ssa.Function]bool{}
-	ring, weight := false, false
+	weightParts := map[*ssa.Function]bool{}
+	var ringStores []*ssa.Store
 	for _, f := range c.AllFns {
 		ff := f
 		eachInstr(f, func(i ssa.Instruction) {
@@ -108,19 +186,24 @@ func c04ringBuilder(c *Ctx) *c04builder {
 				return
 			}
 			if c04storeTo(i, "route.Route", c04ringField) {
-				ring = true
-				parts[c04outer(ff)] = true
+				ringStores = append(ringStores, st)
 			}
 			if c04storeTo(i, "route.Target", "Weight") {
-				weight = true
-				parts[c04outer(ff)] = true
+				weightParts[c04outer(ff)] = true
 			}
 		})
 	}
-	if !ring || !weight {
+	if len(ringStores) == 0 || len(weightParts) == 0 {
 		return nil
 	}
-	b := &c04builder{in: map[*ssa.Function]bool{}, full: map[*ssa.Function]bool{}}
+	// candidates: the region assigns every effective weight and changes no input
+	type cand struct {
+		f   *ssa.Function
+		reg []*ssa.Function
+		has map[*ssa.Function]bool
+	}
+	var cands []*cand
+	isCand := map[*ssa.Function]*cand{}
 	for _, f := range c.fnsWhere("route", func(f *ssa.Function) bool { return f.Parent() == nil }) {
 		reg := c.region(f)
 		has := map[*ssa.Function]bool{}
@@ -128,7 +211,7 @@ func c04ringBuilder(c *Ctx) *c04builder {
 			has[c04outer(g)] = true
 		}
 		covers := true
-		for p := range parts {
+		for p := range weightParts {
 			if !has[p] {
 				covers = false
 			}
@@ -145,9 +228,44 @@ func c04ringBuilder(c *Ctx) *c04builder {
 		if mutates {
 			continue
 		}
-		b.full[f] = true
-		if b.entry == nil || len(reg) < len(b.reg) {
-			b.entry, b.reg = f, reg
+		cd := &cand{f, reg, has}
+		cands = append(cands, cd)
+		isCand[f] = cd
+	}
+	b := &c04builder{in: map[*ssa.Function]bool{}, full: map[*ssa.Function]bool{}, hands: map[*ssa.Function]bool{}}
+	for _, cd := range cands {
+		inside, handed, ok := 0, false, true
+		for _, st := range ringStores {
+			if cd.has[c04outer(st.Parent())] {
+				inside++
+				continue
+			}
+			calls := c04publishedCalls(st)
+			if len(calls) == 0 {
+				ok = false
+				break
+			}
+			for _, call := range calls {
+				_, g := c04resultCall(call)
+				gc := isCand[g]
+				if gc == nil {
+					ok = false
+					break
+				}
+				if gc.has[cd.f] {
+					handed = true // the store publishes what cd.f (or a wrapper around it) returned
+				}
+			}
+		}
+		if !ok || (inside == 0 && !handed) {
+			continue
+		}
+		b.full[cd.f] = true
+		if inside == 0 {
+			b.hands[cd.f] = true
+		}
+		if b.entry == nil || len(cd.reg) < len(b.reg) {
+			b.entry, b.reg = cd.f, cd.reg
 		}
 	}
 	if b.entry == nil {
@@ -157,6 +275,114 @@ func c04ringBuilder(c *Ctx) *c04builder {
 		b.in[g] = true
 	}
 	return b
+}
+
+// c04rebuildCall: the instruction is a synchronous call (or defer) of a full-rebuild function that leaves the route
+// with a rebuilt ring: the callee stores the ring itself, or it hands the ring back and on every path from the call
+// to a return of the caller the result is stored in the ring field. The list it is given must be the route's target
+// list (a value read from Route.Targets, or the value the caller has just stored there).
+func c04rebuildCall(b *c04builder, i ssa.Instruction) bool {
+	if _, isGo := i.(*ssa.Go); isGo {
+		return false
+	}
+	cc := callCommon(i)
+	if cc == nil {
+		return false
+	}
+	sc := cc.StaticCallee()
+	if sc == nil || !isRepoFn(sc) || !b.full[unwrap(sc)] {
+		return false
+	}
+	if !b.hands[unwrap(sc)] {
+		return true
+	}
+	call, ok := i.(*ssa.Call)
+	if !ok {
+		return false // a deferred or discarded result is never published
+	}
+	for _, a := range cc.Args {
+		if c04isTargetSlice(a.Type()) && !c04isTargetList(a, call) {
+			return false
+		}
+	}
+	publishes := func(j ssa.Instruction) bool {
+		switch x := j.(type) {
+		case *ssa.Store:
+			if x.Parent() != call.Parent() {
+				return false
+			}
+			for _, pc := range c04publishedCalls(x) {
+				if pc == call {
+					return true
+				}
+			}
+		case *ssa.Call:
+			// the ring is handed to a setter that stores its parameter in the ring field on all of its paths
+			g := x.Call.StaticCallee()
+			if g == nil || !isRepoFn(g) {
+				return false
+			}
+			g = unwrap(g)
+			for k, a := range x.Call.Args {
+				if k >= len(g.Params) {
+					break
+				}
+				carries := false
+				for _, lf := range c04leavesLocal(a, x.Block()) {
+					rc, _ := c04resultCall(lf.v)
+					carries = carries || rc == call
+				}
+				if !carries {
+					continue
+				}
+				param := g.Params[k]
+				if mustExec(g, func(i ssa.Instruction) bool {
+					st, ok := i.(*ssa.Store)
+					if !ok || !c04isRing(st.Addr) || c04freshBase(st.Addr) {
+						return false
+					}
+					ls := c04leavesLocal(st.Val, st.Block())
+					return len(ls) == 1 && ls[0].v == ssa.Value(param)
+				}, 3) {
+					return true
+				}
+			}
+		}
+		return false
+	}
+	_, open := c04openExit(call, publishes, nil)
+	return !open
+}
+
+// c04isTargetList: the argument of a rebuild is the target list of a route: every definition reaching it (through
+// locals, phis, getters and helper parameters) is a read of the field Route.Targets or the very value a store before
+// the call put into Route.Targets. A part of the list (`r.Targets[:n]`) or another list is not.
+func c04isTargetList(a ssa.Value, at ssa.Instruction) bool {
+	if c04storedAsTargets(a, at) {
+		return true
+	}
+	for _, lf := range c04leaves(a, at.Block()) {
+		if c04storedAsTargets(lf.v, at) {
+			continue
+		}
+		if ld, ok := lf.v.(*ssa.UnOp); ok && ld.Op == token.MUL && c04isField(ld.X, "route.Route", "Targets") {
+			continue
+		}
+		return false
+	}
+	return true
+}
+
+// c04storedAsTargets: v is the value that a store dominating `at` (same function) has put into Route.Targets:
+// `r.Targets = clone; r.wTargets = weighTargets(clone)`.
+func c04storedAsTargets(v ssa.Value, at ssa.Instruction) bool {
+	stored := false
+	eachInstr(at.Parent(), func(j ssa.Instruction) {
+		if st, ok := j.(*ssa.Store); ok && st.Val == v && !c04freshBase(st.Addr) && c04isField(st.Addr, "route.Route", "Targets") && dominatesInstr(st, at) {
+			stored = true
+		}
+	})
+	return stored
 }
 
 // ---- merged values ---------------------------------------------------------------------------------------------
